@@ -24,7 +24,7 @@ var (
 	c02Raw    = []string{"script", "style", "textarea", "title"}
 
 	c02AttrNames = []string{"class", "id", "title", "href", "data-x"}
-	c02AttrVals  = []string{"a", "a b", "a  b", "a&#10;b", "a&Tab;b", "a\nb", "&amp;", "&lt;", "&quot;", "'", " a ", "&amp;lt;", "x&gt;y", "&#39;q", "&nbsp;x&nbsp;", "\u00a0"}
+	c02AttrVals  = []string{"a", "a b", "a  b", "a&#10;b", "a&#13;b", "a&#13;&#10;b", "a&Tab;b", "a\nb", "&amp;", "&lt;", "&quot;", "'", " a ", "&amp;lt;", "x&gt;y", "&#39;q", "&nbsp;x&nbsp;", "\u00a0"}
 	c02Texts     = []string{"t", "&amp;", "&lt;b&gt;", "a &lt; b &amp; c", "&amp;lt;", "&#39;", "x &amp; y; z", "\"q\"", "&nbsp;", "a&nbsp;b", "&nbsp;x&nbsp;", "\u00a0", "\u2003"}
 )
 
@@ -40,7 +40,7 @@ type c02Case struct {
 
 func (c *c02Case) Key() string { return c.Part + "|" + c.Src + "|" + c.Val + "|" + c.After }
 
-var c02Opts = htmlcmp.Options{Values: true, RawText: true, KeepDoctype: true}
+var c02Opts = htmlcmp.Options{Values: true, RawText: true, KeepDoctype: true, Flow: true}
 
 // c02IsDoc: the template source is a full document (decided on the source alone, not with
 // vuego's own "</html>" heuristic); source and output are then both parsed as documents.
@@ -122,6 +122,15 @@ func c02Diff(got, want []htmlcmp.El) (where, trigger string) {
 		if g.Tag != w.Tag || g.Depth != w.Depth {
 			return "structure:want-" + w.Tag + "-got-" + g.Tag, "tag"
 		}
+		if g.Tag == "#flow" {
+			// white space that separates inline content is content; other text differences are
+			// reported at the text node itself
+			nosp := func(s string) string { return strings.ReplaceAll(s, " ", "") }
+			if g.Text != w.Text && nosp(g.Text) == nosp(w.Text) {
+				return "inline-spacing-changed:" + parentTag(want, i), "ws"
+			}
+			continue
+		}
 		if g.Tag == "#text" || g.Tag == "#doctype" {
 			if g.Text != w.Text && !(w.Merged && strings.Join(strings.Fields(g.Text), "") == strings.Join(strings.Fields(w.Text), "")) {
 				return "text-changed:" + parentTag(want, i), c02ValClass(w.Text)
@@ -162,8 +171,10 @@ func parentTag(els []htmlcmp.El, i int) string {
 var c02Values = map[string]any{
 	"word": "word", "amp": "a & b", "lt": "1 < 2", "tag": "<b>x</b>", "dq": `say "hi"`, "sq": "it's", "ent": "&amp;",
 	"lead": "  lead", "trail": "trail  ", "nbsp": "\u00a0n\u00a0", "nilv": nil, "int": 42, "neg": -7, "true": true, "float": 2.5, "entlt": "&lt;i&gt;", "semi": "a;b&c",
+	// line breaks as Windows and old Macs write them: a parser turns a raw CR into LF
+	"crlf": "l1\r\nl2", "cr": "m1\rm2", "tabnl": "t\tu\nv",
 }
-var c02ValueNames = []string{"word", "amp", "lt", "tag", "dq", "sq", "ent", "lead", "trail", "nbsp", "nilv", "int", "neg", "true", "float", "entlt", "semi"}
+var c02ValueNames = []string{"word", "amp", "lt", "tag", "dq", "sq", "ent", "lead", "trail", "nbsp", "nilv", "int", "neg", "true", "float", "entlt", "semi", "crlf", "cr", "tabnl"}
 
 func (c *c02Case) Run(ctx *core.Ctx) {
 	switch c.Part {
